@@ -17,20 +17,31 @@ INPUTS = {
     # into the shared registry by one framework's generator would leak into the next render)
     # a field that is only ever null (dropped by pydantic/sqlmodel, kept by the others) and pseudo-typed strings
     "nullonly": [{"id": "1", "deleted_at": None, "tags": ["a"], "ratio": "1.5"}, {"id": "2", "deleted_at": None, "tags": [], "ratio": "2"}],
+    # strings whose type depends on the string-type registry that the call passes explicitly
+    "dates": [{"created": "2018-01-02", "n": "12", "flag": "true", "at": "11:22:33", "when": "2018-01-02T11:22:33", "s": "abc"},
+              {"created": "2019-03-04", "n": "13", "flag": "false", "at": "01:02:03", "when": "2019-03-04T01:02:03", "s": "xyz"}],
     "reserved": [{"config": {"a": 1}, "json": {"b": "x"}, "copy": [{"c": 1.5}], "field": {"d": True}, "validate": 1, "schema": "s"}],
 }
 _REF = {}
 
 
-def reference(inp, fw, layout, override):
+def infer_kwargs(registry):
+    """registry: None (the library default) or the name of an explicitly passed registry (see c01.str_registry)"""
+    if registry is None:
+        return {}
+    from vflib.props import c01
+    return {"str_registry": c01.str_registry(registry)}
+
+
+def reference(inp, fw, layout, override, registry=None):
     """text produced by a FRESH interpreter for the same input and options"""
-    key = (inp, fw, layout, override)
+    key = (inp, fw, layout, override, registry)
     if key not in _REF:
         code = (
             "import json,sys\n"
             "from vflib import pipeline\n"
-            "from vflib.props.c14 import INPUTS, render_kwargs\n"
-            f"g,r,_=pipeline.infer({{'Root': INPUTS[{inp!r}]}})\n"
+            "from vflib.props.c14 import INPUTS, render_kwargs, infer_kwargs\n"
+            f"g,r,_=pipeline.infer({{'Root': INPUTS[{inp!r}]}}, **infer_kwargs({registry!r}))\n"
             f"sys.stdout.write(json.dumps(pipeline.emit(r,{fw!r},{layout!r},**render_kwargs({fw!r},{override!r}))))\n")
         env = dict(os.environ)
         p = subprocess.run(["/venv/bin/python", "-c", code], capture_output=True, text=True, env=env, timeout=120)
@@ -67,14 +78,21 @@ def scen_history(ch, params, out):
     inputs = params.get("inputs", ["simple", "shared"])
     fws = params.get("frameworks", ["pydantic", "dataclasses", "attrs"])
     ncalls = params.get("calls", 3)
+    registries = params.get("registries")      # names of explicitly passed string-type registries, chosen per call
     first = [(i, f, l, a) for i in inputs for f in fws for l in ("flat", "nested") for a in ("fresh", "fail", "override")]
+    if registries:
+        first = [(x, r) for x in first for r in registries]
     history = []
     last = None     # (input, registry) of the previous successful inference
     log = []
     for c in range(ncalls):
         final = c == ncalls - 1
+        regname = None
         if c == 0:
-            inp, fw, layout, action = ch.choose("call0", first, shard=True)
+            pick = ch.choose("call0", first, shard=True)
+            if registries:
+                pick, regname = pick
+            inp, fw, layout, action = pick
         elif final:
             inp, fw, layout = ch.choose(f"call{c}", [(i, f, l) for i in inputs for f in fws for l in ("flat", "nested")])
             action = "fresh"
@@ -87,17 +105,19 @@ def scen_history(ch, params, out):
         else:
             inp, fw, layout, action = ch.choose(f"call{c}", [(i, f, l, a) for i in inputs for f in fws for l in ("flat", "nested")
                                                              for a in ("fresh", "rerender", "fail", "override")])
-        log.append([inp, fw, layout, action])
+        if registries and c > 0:
+            regname = ch.choose(f"registry{c}", registries)
+        log.append([inp, fw, layout, action] + ([regname] if registries else []))
         if action == "override" and final and params.get("final_with_options"):
             override = final_override
         else:
             override = ch.choose(f"override_kind{c}", params.get("override_kinds", ["types_style"])) if action == "override" else None
         try:
             if action == "rerender" and last is not None:
-                inp, reg = last
+                inp, reg, regname = last
             else:
-                gen, reg, _ = pipeline.infer({"Root": copy.deepcopy(INPUTS[inp])})
-                last = (inp, reg)
+                gen, reg, _ = pipeline.infer({"Root": copy.deepcopy(INPUTS[inp])}, **infer_kwargs(regname))
+                last = (inp, reg, regname)
         except Exception as e:
             out.fail("inference_raises", f"{type(e).__name__}: {e} in history {log}", "inference_raises")
             return
@@ -125,7 +145,7 @@ def scen_history(ch, params, out):
                 text = pipeline.emit(reg, fw, layout, **kw)
             except Exception as e:
                 text = ("raised", f"{type(e).__name__}: {e}")
-            kind, ref = reference(inp, fw, layout, override)
+            kind, ref = reference(inp, fw, layout, override, regname)
             if kind == "error":
                 # the fresh interpreter fails as well (e.g. nested layout of a non-tree graph): then this call must fail too
                 out.check(isinstance(text, tuple), "history_hides_failure", lambda: f"fresh process fails ({ref[:200]}) but call {log[-1]} succeeded after {log[:-1]}",
@@ -149,6 +169,9 @@ def parts(tier):
                    shards=16, timeout=170, path_timeout=60),
                 CH("history3_options", "vflib.props.c14:scen_history", {"calls": 3, "inputs": ["nullonly"], "frameworks": ["pydantic", "attrs", "base"],
                                                                         "override_kinds": ["converters", "max_literals_0"], "final_with_options": True},
+                   shards=16, timeout=170, path_timeout=60),
+                CH("history3_explicit_registries", "vflib.props.c14:scen_history", {"calls": 3, "inputs": ["dates"], "frameworks": ["pydantic"],
+                                                                                    "registries": ["default", "none", "datetime"]},
                    shards=16, timeout=170, path_timeout=60)]
     return [CH("history3", "vflib.props.c14:scen_history", {"calls": 3, "inputs": ["simple", "shared", "lists", "clash", "reserved", "nullonly"], "frameworks": ["pydantic", "dataclasses", "attrs", "base"],
                 "override_kinds": ["types_style", "converters", "max_literals_0"]},
